@@ -103,6 +103,10 @@ def _make_nodes(lv, parent, x):
     return nodes
 
 
+def _is_failed(sg):
+    return len(sg) > 3 and sg[3] == "failed"
+
+
 def _sig_in(node, s):
     return node.signals.input.run if s == "run" else node.signals.input.accumulate_and_run
 
@@ -131,8 +135,10 @@ def build(case):
             tgt = nodes[v]
             inp = tgt.inputs.x if (lv > 0 and L["comp"] == v) else tgt.inputs[CH[ch]]
             inp.connect(nodes[u].outputs.out)
-        for e, r, s in L["sig"]:
-            _sig_in(nodes[r], s).connect(nodes[e].signals.output.ran)
+        for sg in L["sig"]:
+            e, r, s = sg[0], sg[1], sg[2]
+            out = nodes[e].signals.output.failed if _is_failed(sg) else nodes[e].signals.output.ran
+            _sig_in(nodes[r], s).connect(out)
         if parent is not None:
             parent.starting_nodes = [nodes[i] for i in L["start"]]
             if L["par"] == "wf":
@@ -148,6 +154,8 @@ def build(case):
 
 
 def snapshot(case, scopes, ordered):
+    """per level: [[label, run, acc, ran, failed, received, failed?] per node, starting, automate, parent failed];
+    an emitter is numbered 2*node (its `ran`) or 2*node+1 (its `failed`)"""
     out = []
     for lv, L in enumerate(case["levels"]):
         parent, nodes = scopes[lv]
@@ -155,17 +163,29 @@ def snapshot(case, scopes, ordered):
         lab2i = {}
         for i, n in enumerate(nodes):
             lab2i.setdefault(n.label, i)
+            lab2i.setdefault(n.label + str(id(n)), i)      # the temporary label of a pull
+
+        def em(c):
+            i = ident.get(id(c.owner), -1)
+            return -1 if i < 0 else 2 * i + (1 if c.label == "failed" else 0)
+
+        def tg(c):
+            return [ident.get(id(c.owner), -1), 0 if c.label == "run" else 1 if c.label == "accumulate_and_run" else 2]
+
+        def rc(k):
+            lab, _, ch = str(k).rpartition("__")
+            i = lab2i.get(lab, -1)
+            return -1 if i < 0 else 2 * i + (1 if ch == "failed" else 0)
         rows = []
         for n in nodes:
-            run = [ident.get(id(c.owner), -1) for c in n.signals.input.run.connections]
-            acc = [ident.get(id(c.owner), -1) for c in n.signals.input.accumulate_and_run.connections]
-            ran = [[ident.get(id(c.owner), -1), 0 if c.label == "run" else 1 if c.label == "accumulate_and_run" else 2]
-                   for c in n.signals.output.ran.connections]
-            rec = sorted(lab2i.get(str(k).rsplit("__", 1)[0], -1)
-                         for k in n.signals.input.accumulate_and_run.received_signals)
+            run = [em(c) for c in n.signals.input.run.connections]
+            acc = [em(c) for c in n.signals.input.accumulate_and_run.connections]
+            ran = [tg(c) for c in n.signals.output.ran.connections]
+            fld = [tg(c) for c in n.signals.output.failed.connections]
+            rec = sorted(rc(k) for k in n.signals.input.accumulate_and_run.received_signals)
             if not ordered:
-                run, acc, ran = sorted(run), sorted(acc), sorted(ran)
-            rows.append([n.label, run, acc, ran, rec, bool(n.failed)])
+                run, acc, ran, fld = sorted(run), sorted(acc), sorted(ran), sorted(fld)
+            rows.append([n.label, run, acc, ran, fld, rec, bool(n.failed)])
         if parent is not None:
             start = [ident.get(id(s), -1) for s in parent.starting_nodes]
         else:
@@ -233,20 +253,22 @@ def _lists_after_ops(L):
     n = L["n"]
     run = [[] for _ in range(n)]
     acc = [[] for _ in range(n)]
-    ran = [[] for _ in range(n)]
-    for e, r, s in L["sig"]:
+    out = [[] for _ in range(2 * n)]          # by emitter: 2i = ran of i, 2i+1 = failed of i
+    for sg in L["sig"]:
+        e, r, s = sg[0], sg[1], sg[2]
+        code = 2 * e + (1 if _is_failed(sg) else 0)
         lst = run[r] if s == "run" else acc[r]
-        if e in lst:
+        if code in lst:
             continue
-        lst.insert(0, e)
-        ran[e].insert(0, (r, s))
+        lst.insert(0, code)
+        out[code].insert(0, (r, s))
     ups_ch = [[[] for _ in CH] for _ in range(n)]
     for u, v, ch in L["data"]:
         c = 0 if ("comp" in L and L.get("comp") == v) else ch
         if u not in ups_ch[v][c]:
             ups_ch[v][c].insert(0, u)
     ups = [[u for chl in ups_ch[v] for u in chl] for v in range(n)]
-    return run, acc, ran, ups
+    return run, acc, out, ups
 
 
 def _natl(l):
@@ -254,7 +276,7 @@ def _natl(l):
 
 
 def scope_term(L):
-    run, acc, ran, ups = _lists_after_ops(L)
+    run, acc, out, ups = _lists_after_ops(L)
     n = L["n"]
     flags = lambda key: cl(cb(i in L[key]) for i in range(n))
     par = {"none": "PNone", "wf": "PWf", "macro": "PMacro"}[L["par"]]
@@ -262,7 +284,7 @@ def scope_term(L):
             "(tbl [] " + cl(_natl(x) for x in ups) + ") "
             "(tbl [] " + cl(_natl(x) for x in run) + ") "
             "(tbl [] " + cl(_natl(x) for x in acc) + ") "
-            "(tbl [] " + cl(cl(f"({cn(r)}, {'IRun' if s == 'run' else 'IAcc'})" for r, s in x) for x in ran) + ") "
+            "(tbl [] " + cl(cl(f"({cn(r)}, {'IRun' if s == 'run' else 'IAcc'})" for r, s in x) for x in out) + ") "
             "(tbl [] []) "
             f"(tbl false {flags('exe')}) (tbl false {flags('bad')}) (tbl false {flags('failed')}) "
             f"{par} {_natl(L['start'])} {cb(L['automate'])} {cb(L['pfailed'])})")
@@ -408,7 +430,7 @@ def _restored(case, before, after):
         for i, (rb, ra) in enumerate(zip(b[0], a[0])):
             if rb[0] != ra[0]:
                 return f"label-not-restored: level {lv} node {i}: {rb[0]!r} -> {ra[0]!r}"
-            for j, name in ((1, "run"), (2, "accumulate_and_run"), (3, "ran")):
+            for j, name in ((1, "run"), (2, "accumulate_and_run"), (3, "ran"), (4, "failed")):
                 sb = sorted(map(json.dumps, rb[j]))
                 sa = sorted(map(json.dumps, ra[j]))
                 if sb != sa:
@@ -468,47 +490,46 @@ def oracle(case, obs):
     return None
 
 
-def _sig_desc(L, src):
-    seen, todo = set(), [src]
+def _sig_desc(L, srcs):
+    """nodes that signal connections (of either output signal) can reach from the nodes `srcs`"""
+    seen, todo = set(srcs), list(srcs)
     while todo:
         e = todo.pop()
-        for (a, r, s) in L["sig"]:
-            if a == e and r not in seen:
-                seen.add(r)
-                todo.append(r)
+        for sg in L["sig"]:
+            if sg[0] == e and sg[1] not in seen:
+                seen.add(sg[1])
+                todo.append(sg[1])
     return seen
 
 
-def s12_cause(case):
-    """a composite that this pull runs (the target's parent; with parent scopes every enclosing one) is a macro
-    whose `ran` signal has connections -> the levels at which its downstream siblings get pushed"""
+def failed_handler_cause(case):
+    """a node of the upstream closure whose function raises during the pull has something connected to its
+    `failed` signal -> per level, the nodes those connections can push"""
     out = {}
-    pulled = pulled_levels(case)
-    for lv in pulled:
+    for lv in pulled_levels(case):
         L = case["levels"][lv]
-        if L["par"] == "macro" and lv + 1 < len(case["levels"]):
-            U = case["levels"][lv + 1]
-            if any(e == U["comp"] for (e, r, s) in U["sig"]):
-                out[lv + 1] = _sig_desc(U, U["comp"])
+        k = _head(case, lv)
+        D = _closure(L, k)
+        if D is None:
+            break
+        failing = [v for v in D if v != k and v in L["bad"]]
+        handlers = {sg[1] for sg in L["sig"] if _is_failed(sg) and sg[0] in failing and sg[1] not in D}
+        if handlers:
+            out[lv] = _sig_desc(L, handlers)
     return out
 
 
 def known(case, obs, verdict):
-    cause = s12_cause(case)
-    if not cause:
-        return None
-    if verdict.startswith("unexpected-error"):
-        # the pushed downstream siblings are not logged when they are refused (already failed): the pull aborts
-        if any(v in case["levels"][lv]["bad"] or v in case["levels"][lv]["failed"] for lv in cause for v in cause[lv]):
-            return "S12-parent-ran-emitted"
-        return None
     if not verdict.startswith("ran-outside-closure"):
+        return None
+    cause = failed_handler_cause(case)
+    if not cause:
         return None
     ex = expectation(case)
     allowed = set(ex["allowed"])
     extra = [tuple(e) for e in obs[1] if tuple(e) not in allowed]
-    if all(lv in cause and v in cause[lv] for (lv, v) in extra):
-        return "S12-parent-ran-emitted"
+    if ex["must_fail"] and all(lv in cause and v in cause[lv] for (lv, v) in extra):
+        return "C11-failed-handler-runs"
     return None
 
 
@@ -535,7 +556,9 @@ def gen_level(rng, lv, par, is_top, n, comp):
                     data.append([u, v, rng.randrange(3)])
     rng.shuffle(data)
     sig = []
-    if lv == 0:
+    ruled = lv > 0 or rng.random() < 0.5
+    if not ruled:
+        # level 0, ran -> run / accumulate_and_run in any direction (cycles too): nothing of it may fire
         m = rng.choice([0, 0, 1, 2, 3, 5])
         for _ in range(m):
             e, r = rng.randrange(n), rng.randrange(n)
@@ -545,21 +568,27 @@ def gen_level(rng, lv, par, is_top, n, comp):
                 e, r = r, e
             sig.append([e, r, rng.choice(["run", "run", "acc"])])
     else:
-        # forward only, and every receiver has either one run connection or only all-of connections, so that
-        # nothing is triggered twice when an enclosing macro's `ran` pushes its downstream siblings
+        # forward only, and every receiver has either one any-of connection or only all-of connections, so that
+        # nothing is triggered twice if something does get pushed (a `failed` handler); some connections hang
+        # on the emitter's `failed` signal instead of its `ran`
+        c0 = comp if comp is not None else n
+        pf = rng.choice([0.0, 0.25, 0.5])
+
+        def kind():
+            return ["failed"] if rng.random() < pf else []
         for r in range(1, n):
             mode = rng.choice(["none", "none", "run", "acc", "acc"])
-            if r > comp and rng.random() < 0.5:
+            if r > c0 and rng.random() < 0.5:
                 mode = rng.choice(["run", "acc"])
             if mode == "run":
-                e = rng.randrange(r) if not (r > comp and rng.random() < 0.6) else comp
-                sig.append([e, r, "run"])
+                e = rng.randrange(r) if not (r > c0 and rng.random() < 0.6) else c0
+                sig.append([e, r, "run"] + kind())
             elif mode == "acc":
                 es = rng.sample(range(r), rng.randint(1, min(3, r)))
-                if r > comp and rng.random() < 0.6 and comp not in es:
-                    es[0] = comp
+                if r > c0 and rng.random() < 0.6 and c0 not in es:
+                    es[0] = c0
                 for e in es:
-                    sig.append([e, r, "acc"])
+                    sig.append([e, r, "acc"] + kind())
         rng.shuffle(sig)
     start = rng.sample(range(n), rng.choice([0, 0, 1, 2]) if n >= 2 else rng.choice([0, 1])) if par != "none" else []
     return {"par": par, "n": n, "labels": labels, "data": data, "comp": comp, "sig": sig, "start": start,
@@ -576,6 +605,18 @@ def gen_graph(rng, big):
         comp = rng.randrange(1, n) if lv > 0 else None
         levels.append(gen_level(rng, lv, par, is_top, n, comp))
     return levels
+
+
+def _rule_ok(L):
+    """forward-only signals, every receiver with one any-of connection or only all-of connections"""
+    for r in range(L["n"]):
+        inc = [sg for sg in L["sig"] if sg[1] == r]
+        if any(sg[0] >= r for sg in inc):
+            return False
+        runs = [sg for sg in inc if sg[2] == "run"]
+        if len(runs) > 1 or (runs and len(inc) > 1):
+            return False
+    return True
 
 
 def variants(rng, levels, target, parents, thorough):
@@ -596,7 +637,19 @@ def variants(rng, levels, target, parents, thorough):
         c = cp()
         c["levels"][lv]["bad"] = [v]
         out.append(c)
-    # a failing node somewhere else (must not matter unless an enclosing macro pushes it: S12)
+    # a failing upstream node with a hand-wired `failed` handler outside the closure (known finding)
+    if runset and rng.random() < 0.35:
+        lv, v = rng.choice(runset)
+        L0 = levels[lv]
+        if (lv, v) != (0, target) and _rule_ok(L0):
+            D = _closure(L0, _head(base, lv)) or set()
+            free = [r for r in range(v + 1, L0["n"]) if r not in D and not any(sg[1] == r for sg in L0["sig"])]
+            if free:
+                c = cp()
+                c["levels"][lv]["bad"] = [v]
+                c["levels"][lv]["sig"].append([v, rng.choice(free), rng.choice(["run", "acc"]), "failed"])
+                out.append(c)
+    # a failing node somewhere else (must not matter)
     if rng.random() < 0.4:
         c = cp()
         lv = rng.randrange(len(levels))
@@ -690,7 +743,7 @@ def shrink_candidates(case):
             yield d
         # drop the last node of a level when nothing refers to it
         last = L["n"] - 1
-        used = (any(last in (u, v) for u, v, _ in L["data"]) or any(last in (e, r) for e, r, _ in L["sig"])
+        used = (any(last in (u, v) for u, v, _ in L["data"]) or any(last in (sg[0], sg[1]) for sg in L["sig"])
                 or last in L["start"] + L["exe"] + L["bad"] + L["failed"] or L.get("comp") == last
                 or (lv == 0 and c["target"] == last))
         if not used and L["n"] > (1 if lv == 0 else 2):
@@ -724,7 +777,7 @@ def distribution(results):
         ex = expectation(c)
         d["refused"] += ex["refusal"] is not None
         d["must_fail"] += bool(ex["must_fail"])
-        d["s12"] += bool(v and v.startswith("ran-outside-closure"))
+        d["s12"] += bool(v and v.startswith("ran-outside-closure"))      # now: failed-handler pushes only
         k = len(ex["allowed"])
         d["closure_sizes"][k] = d["closure_sizes"].get(k, 0) + 1
         d["not_modelled"] += not modelled(c)
